@@ -484,3 +484,69 @@ def codec_encode(ref, inputs):
         buf += [(base[i] ^ x) if i < len(base) else x for i, x in enumerate(inp)]
         base = list(inp)
     return hexs(rle_encode(buf))
+
+
+# ---------------------------------------------------------------- scripts of the C05 / C08 / C18 witnesses (EndpointSafety.v, EndpointLink.v)
+_DEFAULT_CFG = {"window": 8, "timeout": 2000, "notify": 500, "fps": 60, "desync": 0}
+
+
+def _running_pair(cfg=None, seed=1):
+    """two linked endpoints after a complete handshake; returns (lines, magic of 0, magic of 1)"""
+    c = dict(_DEFAULT_CFG)
+    c.update(cfg or {})
+    L = pair_header(None, c, seed, 0)
+    sm = SplitMix(seed)
+    m0, m1 = sm.magic(), sm.magic()
+    complete_handshake(L)
+    return L, m0, m1
+
+
+def frame_overflow_script():
+    """C08_frame_overflow_panics_refuted: a packet under the peer's magic whose first (valid) frame sits at
+    i32::MAX; the number of the second frame overflows: `panic` in the dev profile, ok (lr=2147483647) in release."""
+    L, _, m1 = _running_pair()
+    L.append("msg 0 %d input 0:-1,0:-1 0 %d -1 %s" % (m1, I32_MAX, codec_encode([0] * 4, [[1, 0, 0, 0], [7, 7, 7]])))
+    L.append("poll 0 0:-1,0:-1")
+    return L
+
+
+def checksums_unbounded_script(n=40):
+    """C18_pending_checksums_unbounded_refuted: n checksum reports with strictly decreasing frames (forged by the
+    authorized peer) are all kept: the last-but-one line shows pc=n."""
+    L, _, m1 = _running_pair({"desync": 1})
+    for k in range(n):
+        L.append("msg 0 %d csum 7 %d" % (m1, 1000 - k))
+    L.append("poll 0 0:-1,0:-1")
+    return L
+
+
+def recv_inputs_unbounded_script(n=20, window=0):
+    """C18_recv_inputs_unbounded_refuted: n packets [good, good, 3 bytes] (forged by the authorized peer), each
+    starting at last_recv_frame + 1: the wrong-size exit keeps the good frames and never prunes: ri=2n+1."""
+    L, _, m1 = _running_pair({"window": window})
+    ref = [0, 0, 0, 0]
+    for k in range(n):
+        good = [1, 0, 0, 0]
+        L.append("msg 0 %d input 0:-1,0:-1 0 %d -1 %s" % (m1, 2 * k, codec_encode(ref, [good, good, [7, 7, 7]])))
+        ref = good
+    L.append("poll 0 0:-1,0:-1")
+    return L
+
+
+def lost_ack_script(window=0, first_frame=0, retries=2):
+    """The history of C05_lost_ack_wedges_refuted / C05_lost_ack_repaired on real endpoints: endpoint 0 sends
+    frame f, endpoint 1 handles it, its InputAck is dropped, 0 sends frame f+1, 1 handles that packet, then 0's retry
+    timer fires `retries` times.  Repaired code: lr of endpoint 1 reaches f+1 (with first_frame > 0 only through the
+    re-acknowledgement: `deliver 1 0` of the InputAck, then the next packet).  Before b2421d6 lr stayed f."""
+    L, _, _ = _running_pair({"window": window})
+    f = first_frame
+    L += ["clock 10", "send 0 0:%d:5 0:-1,0:-1" % f, "deliver 0 1 0", "drop 1 0 0",
+          "clock 20", "send 0 0:%d:6 0:-1,0:-1" % (f + 1), "deliver 0 1 0"]
+    t = 20
+    for _ in range(retries):
+        t += 300
+        L += ["clock %d" % t, "poll 0 0:-1,0:-1",          # retry timer: retransmission (+ quality report)
+              "deliver 0 1 0",                              # the retransmitted Input packet reaches 1
+              "deliver 1 0 0"]                              # 1's answer (InputAck) reaches 0
+    L += ["clock %d" % (t + 300), "poll 0 0:-1,0:-1", "deliver 0 1 0", "poll 1 0:-1,0:-1"]
+    return L
